@@ -615,6 +615,59 @@ pub fn c06_variant<T: Full + borsh::de::EnumExt>(g: &mut Gen, b: &Budget, out: &
     }
 }
 
+// ------------------------------------------------------------------ C07
+
+/// hostile inputs under the counting allocator: no panic, no abort, allocation bounded by a
+/// constant plus a multiple of the input length (a length prefix alone buys at most 1 MiB)
+pub fn c07<T: Full>(g: &mut Gen, b: &Budget, out: &mut Sink) {
+    let ty = T::ty();
+    let size = std::mem::size_of::<T>();
+    let mut inputs: Vec<Vec<u8>> = Vec::new();
+    for _ in 0..(b.values / 3).max(2) {
+        let v = T::gen(g, 0);
+        let Some(bs) = enc_obs(&v).1 else { continue };
+        if bs.len() > 65536 {
+            continue;
+        }
+        // adversarial length prefixes at every 4-byte window (all of them for short encodings)
+        let n = bs.len();
+        let wins: Vec<usize> = if n >= 4 {
+            if n - 3 <= 24 || b.thorough { (0..n - 3).collect() } else { (0..12).map(|_| g.below((n - 3) as u64) as usize).collect() }
+        } else {
+            vec![]
+        };
+        for p in wins {
+            for pat in [[0xffu8, 0xff, 0xff, 0xff], [0x00, 0x00, 0x00, 0x80], [0xff, 0xff, 0xff, 0x7f], [0x00, 0x00, 0x10, 0x00], [0x01, 0x00, 0x10, 0x00]] {
+                let mut x = bs.clone();
+                x[p..p + 4].copy_from_slice(&pat);
+                inputs.push(x);
+            }
+        }
+        inputs.push(bs);
+    }
+    for _ in 0..(if b.thorough { 24 } else { 6 }) {
+        let n = g.below(48) as usize;
+        let mut x = g.bytes(n);
+        if n >= 4 && g.chance(1, 2) {
+            x[0..4].copy_from_slice(&[0xff, 0xff, 0xff, 0xff]);
+        }
+        inputs.push(x);
+    }
+    for inp in inputs {
+        let case = format!("fs {} {} {}", MODE, ty, hex(&inp));
+        // the input is announced before it is decoded, so that an abort (allocation failure,
+        // stack overflow) leaves the culprit on disk
+        out.announce(&case);
+        let ((o, _), m) = crate::alloc::measured(|| fs_obs::<T>(&inp));
+        out.case(&case, &o);
+        out.oracle("C07", !o.starts_with("panic"), &case, &o);
+        let bound = (1usize << 20) + (1 << 16) + 4 * size + 160 * inp.len();
+        out.oracle("C07", m.largest <= bound && m.peak <= 2 * bound, &case,
+                   &format!("largest single allocation {} bytes, peak {} bytes for {} input bytes (bound {}, size_of {})",
+                            m.largest, m.peak, inp.len(), bound, size));
+    }
+}
+
 /// one catalogue entry, type-erased
 pub struct Entry {
     pub name: &'static str,
@@ -631,7 +684,8 @@ pub fn run_prop<T: Full>(prop: &str, g: &mut Gen, b: &Budget, out: &mut Sink) {
         "C01" => c01::<T>(g, b, out),
         "C02" => c02::<T>(g, b, out),
         "C03" => c03::<T>(g, b, out),
-        "C04" | "C16" | "C07" => c04::<T>(g, b, out),
+        "C04" | "C16" => c04::<T>(g, b, out),
+        "C07" => c07::<T>(g, b, out),
         "C05" => c05::<T>(g, b, out),
         "C14" => c14::<T>(g, b, out),
         "C11" => crate::script::c11::<T>(g, b, out),
